@@ -100,7 +100,7 @@ def run(pid, tier):
     tot_states = tot_trans = tot_edges = 0
     # a graph far larger than the specification predicts (a badly broken implementation): the edge
     # comparison is sampled so that the run stays bounded; the monitor still runs on the whole graph
-    stride = 1 + stats["edges"] // 400000
+    stride = 1 + stats["edges"] // 200000
     for levels, tag0 in IMPL_RUNS:
         first = vel.impl_tlc(nodes, cases_file, d, levels, "both", tag0 + "-both", stride=stride)
         todo = [("both", tag0 + "-both", first)]
@@ -142,7 +142,7 @@ def run(pid, tier):
     if not quick:
         bin2 = vel.build_overflow_checks()
         nodes2, stats2 = vel.explore(bin2, cases_file, d, threads=8, out="nodes_ovf.ndjson")
-        r2 = vel.impl_tlc(nodes2, cases_file, d, "all", "both", "ovf-both", stride=1 + stats2["edges"] // 400000)
+        r2 = vel.impl_tlc(nodes2, cases_file, d, "all", "both", "ovf-both", stride=1 + stats2["edges"] // 200000)
         rep2 = r2["report"]
         cov["legs"]["B_impl_overflow_checks_build"] = {
             "impl_states": rep2["nodes"], "impl_edges": rep2["edges"], "approved_edges": rep2["approved"],
